@@ -68,7 +68,7 @@ func TestProp(t *testing.T) {
 	r.Regress()
 	r.Assume("requests are minted with ref/der + ref/krbcrypto; time windows are probed at +-3 s (ticket times) and +-1.5 s (authenticator time) from the edge, not at the exact boundary; a case whose evaluation took longer than its margin is discarded")
 	r.Rule("rapid: etype x service {HTTP/host, krbtgt/REALM} x 0-2 defects from a catalogue of " + fmt.Sprint(len(DefectNames)) + " spec transformers x settings (skew {default,10s,1h}, RequireHostAddr, ClientAddress {unset,A,C}, KeytabPrincipal {unset, present, missing}, DecodePAC); oracle = RFC 4120 3.2.3 restated over the spec; non-trivial = >= 1 defect or non-default settings, distinct by (etype, service, defect list, settings)")
-	r.Rapid("apreq", r.N(10000, 60000), func(t *rapid.T) {
+	r.Rapid("apreq", r.N(10000, 400000), func(t *rapid.T) {
 		et := rapid.SampledFrom(ref.ETypes).Draw(t, "etype")
 		svc := rapid.SampledFrom([]string{"HTTP/svc.example.com", "HTTP/svc.example.com", "krbtgt/EXAMPLE.COM"}).Draw(t, "svc")
 		c := Base(et, rapid.Uint64().Draw(t, "seed"), svc)
